@@ -1362,6 +1362,53 @@ def check_C10(ctx):
         ctx.case(('wide', tuple(order)))
         ctx.add_session(s, SECTIONS_L2, f'C10 wide {len(order)}')
         s.close()
+    for _ in range(2 if ctx.tier == 'quick' else 10):
+        if ctx.time_left() < 5:
+            break
+        _count_large(ctx)
+
+
+def _count_large(ctx):
+    """`count` is exact integer arithmetic: functions with 54-70 support variables (beyond the
+    53-bit mantissa of a float) and very large `n` (beyond the float exponent range), against
+    closed forms."""
+    rng = ctx.rng
+    nv = rng.randint(56, 70)
+    names = [f'x{i:02d}' for i in range(nv)]
+    s = fresh(ctx, names)
+    vs = [s.val(s.op(0, 'var', n)) for n in names]
+    k = rng.randint(54, nv)
+    chosen = rng.sample(range(nv), k)
+    disj, conj, par = -1, 1, -1
+    for i in chosen:
+        disj = s.val(s.op(0, 'apply', 'or', disj, vs[i]))
+        conj = s.val(s.op(0, 'apply', 'and', conj, vs[i]))
+        par = s.val(s.op(0, 'apply', 'xor', par, vs[i]))
+    cases = [('or', disj, (1 << k) - 1), ('nor', -disj, 1), ('and', conj, 1),
+             ('nand', -conj, (1 << k) - 1), ('parity', par, 1 << (k - 1)),
+             ('true', 1, None), ('false', -1, 0)]
+    for label, r, base in cases:
+        kk = 0 if label in ('true', 'false') else k
+        for n in (kk, kk + 1, kk + rng.randint(2, 40), 1023, 1024, 1100 + rng.randint(0, 50)):
+            if n < kk:
+                continue
+            want = (1 << n) if label == 'true' else (base << (n - kk))
+            ans = s.op(0, 'count', r, n)
+            ctx.evaluations += 1
+            if ans != f'ok {want}':
+                ctx.violation('count is not exact for a wide function or a large n', dict(
+                    what=label, support=kk, n=n, got=ans[:80], expected=str(want)[:80],
+                    tags=dict(call='count-large')))
+                break
+        if label not in ('true', 'false'):
+            ans = s.op(0, 'count', r)
+            if ans != f'ok {base}':
+                ctx.violation('count(u) is not exact for a wide function', dict(
+                    what=label, support=kk, got=ans[:80], expected=str(base)[:80],
+                    tags=dict(call='count-large')))
+    ctx.case(('count-large', nv, k))
+    ctx.add_session(s, SECTIONS_L2, f'C10 large {nv}/{k}')
+    s.close()
 
 
 def _tt_from_models(full, care, sp, sub, t):
